@@ -387,7 +387,8 @@ def main():
         ],
     }
     os.makedirs(os.path.join(ROOT, 'evidence'), exist_ok=True)
-    json.dump(evidence, open(os.path.join(ROOT, 'evidence', f'{prop}.json'), 'w'), indent=1, default=str)
+    if not os.environ.get('VERIF_NO_EVIDENCE'):  # (mutant runs against scratch copies must not overwrite evidence)
+        json.dump(evidence, open(os.path.join(ROOT, 'evidence', f'{prop}.json'), 'w'), indent=1, default=str)
     print(f'{prop}: runs={agg["runs"]} nontrivial={agg["nontrivial"]} distinct_nt={len(agg["abstract_nt"])} wall={wall:.1f}s '
           f'known={dict(known_seen)} violations={len(reported)} harness_errors={len(harness_errors)} det_checked={det["checked"]}', flush=True)
     if harness_errors:
